@@ -160,16 +160,68 @@ func c17history(t *testing.T, out *vharness.Out, rng *rand.Rand, kind string) {
 		}
 		return "false"
 	}
+	// one history in four starts with a script: a peer registers a topic, a period boundary passes, the
+	// peer registers the SAME topic and seed again (a store of the group is opened again) and is then
+	// presented its own rotation value of the period before
+	if !collision && rng.Intn(4) == 0 {
+		b := rng.Intn(2)
+		p := pairs[rng.Intn(2)]
+		reg := func() {
+			peers[b].RegisterRotation(vclockNow(), p.topic, p.seed)
+			registered[b][p.topic] = p
+			everRegistered[b][p.topic+"|"+string(p.seed)] = true
+			noteHeld(b, p.topic, (nowSec()/interval)*interval)
+			ops = append(ops, fmt.Sprintf("ORegister %s %s %s", pb(b), c17bytes([]byte(p.topic)), c17bytes(p.seed)))
+			obs = append(obs, "None")
+		}
+		reg()
+		per0 := (nowSec() / interval) * interval
+		dt := (nowSec()/interval+1)*interval*1e9 - nowNs() + rng.Int63n(interval*1e9)
+		vclockAdvance(time.Duration(dt))
+		ops = append(ops, fmt.Sprintf("OAdvance %d", dt))
+		obs = append(obs, "None")
+		if rng.Intn(2) == 0 {
+			pt, err := peers[b].PointForTopic(p.topic)
+			ops = append(ops, fmt.Sprintf("OTopic %s %s", pb(b), c17bytes([]byte(p.topic))))
+			obs = append(obs, c17obs(pt, err, pairs, nowSec(), interval))
+			if err == nil {
+				resolvedPeriod[b][p.topic] = (nowSec() / interval) * interval
+				noteHeld(b, p.topic, (nowSec()/interval)*interval)
+			}
+		}
+		reg()
+		rot := GenerateRendezvousPointForPeriod([]byte(p.topic), p.seed, time.Unix(per0, 0))
+		ops = append(ops, fmt.Sprintf("ORot %s (%s, %s)", pb(b), c17bytes(append([]byte(p.topic), p.seed...)), c17z(per0)))
+		q, err := peers[b].PointForRawRotation(rot)
+		obs = append(obs, c17obs(q, err, pairs, nowSec(), interval))
+		if err != nil {
+			fail("own previous rotation value refused during the grace period", fmt.Sprintf("topic %q period %d at unix %d (interval %ds), after the same topic and seed were registered again: %v", p.topic, per0, nowSec(), interval, err))
+		} else if q.Topic() != p.topic {
+			fail("rotation value mapped to another topic", fmt.Sprintf("topic %q mapped to %q", p.topic, q.Topic()))
+		}
+		nontrivial = true
+	}
 	n := 3 + rng.Intn(14)
 	for j := 0; j < n; j++ {
 		b := rng.Intn(2)
 		switch r := rng.Intn(10); {
 		case r < 2: // register
 			p := pairs[rng.Intn(len(pairs))]
+			if len(registered[b]) > 0 && rng.Intn(2) == 0 {
+				// the very pair the peer already has for a topic (a store of the group is opened again)
+				for _, q := range registered[b] {
+					p = q
+					break
+				}
+			}
 			peers[b].RegisterRotation(vclockNow(), p.topic, p.seed)
+			if prevReg, was := registered[b][p.topic]; !was || !bytes.Equal(prevReg.seed, p.seed) {
+				history[b][p.topic] = nil // a registration with another seed: start over
+			}
+			// (a registration with the SAME seed - what storeForGroup does on every opening of a store -
+			// must not make the peer forget its previous rotation values: they stay in the history)
 			registered[b][p.topic] = p
 			everRegistered[b][p.topic+"|"+string(p.seed)] = true
-			history[b][p.topic] = nil // a new registration may change the seed: start over
 			noteHeld(b, p.topic, (nowSec()/interval)*interval)
 			ops = append(ops, fmt.Sprintf("ORegister %s %s %s", pb(b), c17bytes([]byte(p.topic)), c17bytes(p.seed)))
 			obs = append(obs, "None")
@@ -240,7 +292,7 @@ func c17history(t *testing.T, out *vharness.Out, rng *rand.Rand, kind string) {
 				fail("rotation value of an unknown topic accepted", fmt.Sprintf("topic %q", p.topic))
 			}
 			nontrivial = true
-		case r < 8 && len(history[b][pairs[0].topic])+len(history[b][pairs[1].topic]) > 0 && rng.Intn(2) == 0:
+		case r < 8 && len(history[b][pairs[0].topic])+len(history[b][pairs[1].topic]) > 0 && rng.Intn(4) != 0:
 			// the peer's own earlier rotation value for a topic it still has registered (grace period)
 			topic := pairs[0].topic
 			if len(history[b][topic]) == 0 || (len(history[b][pairs[1].topic]) > 0 && rng.Intn(2) == 0) {
